@@ -139,6 +139,34 @@ def r08_1(prog, rep):
                              v, w, "is itself 32-bit" if w != 64 else "the product `%s` is evaluated in 32 bits" % show(narrow[0][0])[:60]))
     if n < 6:
         rep.broken_("rule=R08.1 expected >=6 millisecond sinks/accumulators, found %d" % n)
+    # a difference of two unsigned 32-bit quantities that is widened to 64 bits keeps its wrap-around: -1 day becomes +4294967295 days.
+    # (In 32 bits the conversion to int undoes the wrap; once the accumulator is 64 bits wide it no longer does.)
+    nw = nbad = 0
+    for f in prog.all_fns():
+        if not f.cfg or f.file not in ("instant.c", "instant.h", "tzob.c", "dt-strpf.c", "echsd.c", "evical.c", "scale.c"):
+            continue
+        k = 0
+        for b, i, x, line in f.cfg.all_elems():
+            if not isinstance(x, dict):
+                continue
+            for nn in walk(x):
+                if nn.get("k") == "bin" and nn["op"] == "-" and nn.get("s") is False and nn.get("w") == 32 and int_value(nn["l"]) is None:
+                    nw += 1
+                if nn.get("k") == "cast" and nn.get("impl") and nn.get("ck") == "IntegralCast" and (nn.get("from") or {}).get("s") is False \
+                        and (nn.get("from") or {}).get("w") == 32 and (nn.get("to") or {}).get("w") == 64:
+                    e = nn["e"]
+                    while isinstance(e, dict) and e.get("k") == "cast" and e.get("ck") in ("LValueToRValue", "NoOp"):
+                        e = e["e"]
+                    if isinstance(e, dict) and e.get("k") == "bin" and e["op"] == "-" and int_value(e["l"]) is None:
+                        k += 1
+                        nbad += 1
+                        rep.fail(rid, "%s/widened-unsigned-difference#%d" % (f.name, k), f.loc(nn.get("line", line)),
+                                 "`%s` is computed in unsigned 32 bits and then widened to %s: when the minuend is the smaller one the wrapped value "
+                                 "(4294967296 - n) is kept instead of -n — an end before its begin comes out ~4.29e9 units late" % (show(e)[:60], (nn.get("to") or {}).get("t")))
+    if nw < 5:
+        rep.broken_("rule=R08.1 expected >=5 unsigned 32-bit differences in the time code, found %d" % nw)
+    if not nbad:
+        rep.ok(rid, "time-code/no-widened-unsigned-difference", "src/instant.c",        "%d unsigned 32-bit differences, none widened to 64 bits afterwards" % nw, nontrivial=False)
 
 
 def _tbl(prog, name, file, scope=None):
@@ -387,7 +415,43 @@ def r08_4(prog, rep):
                         if (r["op"] == "<" and c == 3) or (r["op"] == "<=" and c == 2):
                             carry = nn["op"] == "-"
         key = "%s/march-year-carry" % fname
+        # the carry has to reach every use of the year: either the year variable is *defined* with the carry, or each of its reads
+        # sits inside a carry expression (a day count `(by - (m < 3)) * 365 + by / 4` counts the leap days of the uncarried year)
+        partial = None
         if idx and carry:
+            def is_carry(nn):
+                if not (nn.get("k") == "bin" and nn["op"] == "-"):
+                    return False
+                r = strip(nn["r"])
+                return isinstance(r, dict) and r.get("k") == "bin" and r["op"] in ("<", "<=") and idx in (lv(r["l"]), lv(r["r"]))
+            for b, i, x, line in f.cfg.all_elems():
+                if not isinstance(x, dict):
+                    continue
+                xr = f.cfg.resolve(x)
+                defined = {lv(l) for l, kind, nn2 in writes(xr)}
+                for nn in walk(xr):
+                    if is_carry(nn):
+                        carried = {q["n"] for q in walk(nn["l"]) if q.get("k") == "ref" and q.get("dk") == "local"}
+                        for u in carried - defined:
+                            # every read of u must lie inside a carry expression
+                            for b2, i2, x2, line2 in f.cfg.all_elems():
+                                if not isinstance(x2, dict):
+                                    continue
+                                x2r = f.cfg.resolve(x2)
+                                inside = set()
+                                for c2 in walk(x2r):
+                                    if is_carry(c2):
+                                        inside |= {id(q) for q in walk(c2)}
+                                for q in walk(x2r):
+                                    if q.get("k") == "ref" and q.get("n") == u and id(q) not in inside:
+                                        # its own declaration / definition does not count as a use
+                                        if any(lv(l2) == u for l2, k2, n2 in writes(x2r)) and not any(id(q) in {id(z) for z in walk(n2.get("r") or n2.get("init") or {})} for l2, k2, n2 in writes(x2r)):
+                                            continue
+                                        partial = (u, line2)
+        if idx and carry and partial:
+            rep.fail(rid, key, f.loc(partial[1]), "the year carry for months < 3 is applied to one use of `%s` only; line %s uses `%s` without it: the leap days "
+                     "(or days) of the uncarried year are counted for January/February dates" % (partial[0], partial[1], partial[0]))
+        elif idx and carry:
             rep.ok(rid, key, f.loc(), "year is reduced by (%s < 3): January/February belong to the previous March-year" % idx)
         else:
             rep.fail(rid, key, f.loc(), "%s looks days up in a March-based table (Jan=306, Feb=337) but does not carry the year for months < 3: "
